@@ -144,6 +144,8 @@ class Driver:
         r = self._result("hello")
         if r[:1] != ["V"]:
             raise RuntimeError("unexpected driver greeting %r" % (r,))
+        # protocol version 2: address lists go through the real list parsers ("@file+inline" syntax)
+        self.version = int(r[1]) if len(r) > 1 and r[1].isdigit() else 1
 
     # ---- low level -------------------------------------------------------------
     def _fill(self, outstanding):
@@ -202,6 +204,8 @@ class Driver:
 
     # ---- commands --------------------------------------------------------------
     def cfg(self, c):
+        if c.noise is not None and getattr(self, "version", 1) < 2:
+            c = c.with_(noise=None)         # a driver without the list-parser hook only takes plain lists
         r = self._cmd(c.line())
         if r[:2] != ["C", "ok"]:
             raise RuntimeError("configuration rejected: %r" % (r,))
